@@ -42,7 +42,7 @@ var enumCommentPool = []string{
 var EnumLiteralPool = []string{
 	`"a"`, `"b"`, `"A"`, `"1"`, `"1.0"`, `"true"`, `"false"`, `"null"`, `""`, `"a\"b"`, `"é"`, `"a b"`, `"a "`, `"/"`, `"a\\b"`, `"\u0062c"`, `"[1]"`, `"// x"`, `"text\/plain"`, `"\/"`, `"\b\f\n\r\t"`, `"\u00e9\u00E9"`,
 	"1", "0", "-1", "7", "42", "12345678901234567890",
-	"1.0", "1.5", "-0.5", "7.0", "3.14", "0.0",
+	"1.0", "1.5", "-0.5", "7.0", "3.14", "0.0", "0.5", "0.50", "2.5", "2.50", "-0",
 	"true", "false", "null",
 }
 
